@@ -177,7 +177,7 @@ _BUILTIN_CALLABLE_TYPES = frozenset(
 
 
 def _shallow_sym(x):
-    if isinstance(x, (Sym, zone.SZone, zone.SVariant, rx.SMatch, sstr.SStringIO, SRelDelta)):
+    if isinstance(x, (Sym, zone.SZone, zone.SVariant, rx.SMatch, sstr.SStringIO, SRelDelta, SymSet)):
         return True
     if type(x) in (tuple, list):
         for y in x:
@@ -240,6 +240,9 @@ def vc_call(f, *args, **kwargs):
     t = type(f)
     if t in _BUILTIN_CALLABLE_TYPES:
         selfobj = getattr(f, "__self__", None)
+        if type(selfobj) is str and f.__name__ == "join" and len(args) == 1 and not kwargs \
+                and not isinstance(args[0], (list, tuple, str)):
+            args = (list(args[0]),)
         if (selfobj is None or isinstance(selfobj, types.ModuleType) or not _shallow_sym(selfobj)) \
                 and not _any_sym(args, kwargs):
             return f(*args, **kwargs)
@@ -293,10 +296,15 @@ def _call_builtin(f, selfobj, args, kwargs):
             if m is not None:
                 used_models.add("%s.%s" % (selfobj.__name__, name))
                 return m(*args, **kwargs)
+            if (selfobj.__module__ or "") in _NATIVE_OK_MODULES:
+                return f(*args, **kwargs)  # e.g. itertools.chain.from_iterable: moves objects only
             raise Unsupported("%s.%s with symbolic arguments" % (selfobj.__name__, name))
         ts = type(selfobj)
         if ts is str:
             return getattr(sstr.SStr(tuple(selfobj)), name)(*args, **kwargs)
+        if isinstance(selfobj, dict) and name in ("__contains__", "__getitem__", "get") and args \
+                and isinstance(args[0], sstr.SStr):
+            return _dict_lookup(selfobj, name, *args)
         if isinstance(selfobj, _pattern_types):
             used_models.add("regex.%s" % name)
             return _pattern_method(selfobj, name, args, kwargs)
@@ -341,6 +349,112 @@ def _pattern_method(pat, name, args, kwargs):
     raise Unsupported("Pattern.%s on a skeleton string" % name)
 
 
+def _dict_lookup(d, name, key, default=None):
+    """dict access with a skeleton-string key: a key of the dict matches if it is a string of the
+    same length and equal character by character (symbolic digits compare symbolically: forks)"""
+    n = len(key)
+    for k in d:
+        if type(k) is str and len(k) == n:
+            if key == k:
+                if name == "__contains__":
+                    return True
+                return d[k]
+    if name == "__contains__":
+        return False
+    if name == "get":
+        return default
+    raise KeyError(key)
+
+
+class SymSet:
+    """set(...) of strings some of which are skeleton strings (list-backed, symbolic equality)"""
+
+    def __init__(self, items=()):
+        self.items = []
+        for x in items:
+            self.add(x)
+
+    def add(self, x):
+        for y in self.items:
+            if _str_eq(x, y):
+                return
+        self.items.append(x)
+
+    def __contains__(self, x):
+        for y in self.items:
+            if _str_eq(x, y):
+                return True
+        return False
+
+    def __iter__(self):
+        return iter(list(self.items))
+
+    def __len__(self):
+        return len(self.items)
+
+    def __bool__(self):
+        return bool(self.items)
+
+    def __sub__(self, other):
+        o = other if isinstance(other, SymSet) else SymSet(other)
+        return SymSet([x for x in self.items if x not in o])
+
+    def __or__(self, other):
+        return SymSet(self.items + list(other))
+
+    def __and__(self, other):
+        o = other if isinstance(other, SymSet) else SymSet(other)
+        return SymSet([x for x in self.items if x in o])
+
+    def isdisjoint(self, other):
+        o = other if isinstance(other, SymSet) else SymSet(other)
+        for x in self.items:
+            if x in o:
+                return False
+        return True
+
+
+def _str_eq(a, b):
+    if isinstance(a, sstr.SStr) or isinstance(b, sstr.SStr):
+        if not isinstance(a, (str, sstr.SStr)) or not isinstance(b, (str, sstr.SStr)):
+            return False
+        return bool(a == b)
+    return a == b
+
+
+def model_set(iterable=()):
+    items = list(iterable)
+    if any(isinstance(x, sstr.SStr) for x in items):
+        return SymSet(items)
+    if any(isinstance(x, Sym) for x in items):
+        raise Unsupported("set() of symbolic non-string values")
+    return set(items)
+
+
+def model_unicodedata_normalize(form, s):
+    import unicodedata
+
+    if isinstance(s, sstr.SStr):
+        out = []
+        for it in s.items:
+            if isinstance(it, str):
+                out.extend(unicodedata.normalize(form, it))
+            else:
+                out.append(it)  # ASCII digits are fixed points of every normal form
+        return sstr.mk_str(out)
+    return unicodedata.normalize(form, s)
+
+
+def model_unicodedata_category(c):
+    import unicodedata
+
+    if isinstance(c, sstr.SStr):
+        if len(c.items) != 1:
+            raise TypeError("category() argument must be a unicode character, not str")
+        return "Nd"
+    return unicodedata.category(c)
+
+
 def vc_mod(a, b):
     if type(a) is str:
         if isinstance(b, Sym) or (type(b) is tuple and any(isinstance(x, Sym) for x in b)):
@@ -351,6 +465,10 @@ def vc_mod(a, b):
 def vc_in(a, b):
     if type(b) is str and isinstance(a, sstr.SStr):
         return sstr.contains(b, a)
+    if isinstance(a, sstr.SStr) and isinstance(b, dict):
+        return _dict_lookup(b, "__contains__", a)
+    if isinstance(a, sstr.SStr) and isinstance(b, (set, frozenset)):
+        return a in SymSet(b)
     if type(b) is str and isinstance(a, Sym):
         raise Unsupported("%s in str" % type(a).__name__)
     return a in b
@@ -399,10 +517,65 @@ def _str_of_sint(x):
     return sstr.mk_str((["-"] if neg else []) + items)
 
 
+class LazyDecimal(Sym):
+    """str(n) for an integer n that int() read from a digit string s: `.zfill(len(s))` is s itself
+    (exact: zfill restores exactly the leading zeros int() dropped); any other use materialises the
+    decimal rendering (a case split on the number of digits)."""
+
+    def __init__(self, n):
+        self.n = n
+        self._s = None
+
+    def _str(self):
+        if self._s is None:
+            self._s = _str_of_sint(self.n)
+        return self._s
+
+    def zfill(self, width):
+        if isinstance(width, int) and width == len(self.n.src):
+            return sstr.mk_str(self.n.src)
+        return self._str().zfill(width)
+
+    def __getattr__(self, name):
+        if name.startswith("__"):
+            raise AttributeError(name)
+        return getattr(self._str(), name)
+
+    def __len__(self):
+        return len(self._str())
+
+    def __eq__(self, o):
+        return self._str() == o
+
+    def __ne__(self, o):
+        return self._str() != o
+
+    def __add__(self, o):
+        return self._str() + o
+
+    def __radd__(self, o):
+        return o + self._str()
+
+    def __iter__(self):
+        return iter(self._str())
+
+    def __getitem__(self, k):
+        return self._str()[k]
+
+    def __bool__(self):
+        return True
+
+    __hash__ = Sym.__hash__
+
+
 def model_str(x=""):
     if isinstance(x, sstr.SStr):
         return x
+    if isinstance(x, LazyDecimal):
+        return x
     if isinstance(x, SInt):
+        if x.src is not None:
+            return LazyDecimal(x)
         return _str_of_sint(x)
     if isinstance(x, Sym):
         raise Unsupported("str(%s)" % type(x).__name__)
@@ -595,6 +768,11 @@ def _build_tables():
     reg(str, model_str, "str()")
     reg(bool, model_bool, "bool()")
     reg(isinstance, model_isinstance, "isinstance()")
+    reg(set, model_set, "set() [skeleton strings]")
+    import unicodedata as _ud
+
+    reg(_ud.normalize, model_unicodedata_normalize, "unicodedata.normalize [ASCII digits fixed]")
+    reg(_ud.category, model_unicodedata_category, "unicodedata.category [digit -> Nd]")
     reg(_dt.datetime, cal.mk_datetime, "datetime()")
     reg(_dt.date, cal.mk_date, "date()")
     reg(_dt.time, cal.mk_time, "time()")
